@@ -230,6 +230,13 @@ func (g *schemaGenerator) extractRefNames(t *schemas.Type) (string, string, erro
 		}
 
 		defName = scope[len(prefix):]
+		if defName == "" {
+			return "", "", fmt.Errorf(
+				"%w: definition name is empty: '%s'",
+				errCannotGenerateReferencedType,
+				t.Ref,
+			)
+		}
 	}
 
 	return defName, fileName, nil
